@@ -22,9 +22,9 @@ structure TfsSpec (s : St) (env : Env) (r : St × Env × Option Nat × List SAns
   fail : ∀ e, r.2.2.1 = some e → r.1.sbuf = s.sbuf ∧ s.sbuf ≠ [] ∧ (e ≠ EAGAIN → r.2.1.txErr = some e)
   sticky : ∀ e0, env.txErr = some e0 → r.2.1 = env ∧ r.1 = s ∧ (s.sbuf ≠ [] → r.2.2.1 = some e0)
   txErrMono : ∀ e0, env.txErr = some e0 → r.2.1.txErr = some e0
-  cnt : r.1.cnt = s.cnt ∨
-    (s.sbuf ≠ [] ∧ r.2.2.1 = none ∧
-      r.1.cnt = { s.cnt with toLowerB := s.cnt.toLowerB + rd32 s.sbuf, toLowerM := s.cnt.toLowerM + 1 })
+  cntSame : (s.sbuf = [] ∨ r.2.2.1 ≠ none) → r.1.cnt = s.cnt
+  cntDone : s.sbuf ≠ [] → r.2.2.1 = none →
+      r.1.cnt = { s.cnt with toLowerB := s.cnt.toLowerB + rd32 s.sbuf, toLowerM := s.cnt.toLowerM + 1 }
   txGrow : ∃ d, r.2.1.tx = env.tx ++ d
 
 theorem isEmpty_false_iff {l : Bytes} : l.isEmpty = false ↔ l ≠ [] := by
@@ -109,10 +109,10 @@ theorem tfs_spec (ans : List SAns) (s : St) (env : Env) (hw : SWf s) :
               simp [tryFinishSendAux, he, hte, hkk, hfin]
             rw [hval]
             have hw' : SWf { s with sent := s.sent + k' } := Or.inr (by simp; omega)
-            obtain ⟨i1, i2, i3, i4, i5, i6, i7, i8, i9, i10, i11, i12⟩ :=
+            obtain ⟨i1, i2, i3, i4, i5, i6, i7, i8, i9, i10, i11, i11b, i12⟩ :=
               ih { s with sent := s.sent + k' }
                 { env with tx := env.tx ++ (s.sbuf.drop s.sent).take k' } hw'
-            refine ⟨i1, ?_, i3, i4, i5, i6, i7, ?_, ?_, ?_, ?_, ?_⟩
+            refine ⟨i1, ?_, i3, i4, i5, i6, i7, ?_, ?_, ?_, i11, i11b, ?_⟩
             · rw [i2]
               simp only [wirePending, List.append_assoc]
               congr 1
@@ -123,9 +123,6 @@ theorem tfs_spec (ans : List SAns) (s : St) (env : Env) (hw : SWf s) :
               exact ⟨j1, hne, j3⟩
             · intro e0 h; rw [hte] at h; cases h
             · intro e0 h; rw [hte] at h; cases h
-            · rcases i11 with h | ⟨_, h2, h3⟩
-              · exact Or.inl h
-              · exact Or.inr ⟨hne, h2, h3⟩
             · obtain ⟨d, hd⟩ := i12
               exact ⟨(s.sbuf.drop s.sent).take k' ++ d, by rw [hd]; simp⟩
 
@@ -254,16 +251,57 @@ theorem tfs_recvside (ans : List SAns) (s : St) (env : Env) :
           · exact ⟨rfl, rfl, rfl, rfl⟩
           · exact ih _ _
 
+/-- the four receive-side counters of `s'` are those of `s` -/
+def RCntSame (s' s : St) : Prop :=
+  s'.cnt.toAppM = s.cnt.toAppM ∧ s'.cnt.toAppB = s.cnt.toAppB ∧
+  s'.cnt.fromLowerM = s.cnt.fromLowerM ∧ s'.cnt.fromLowerB = s.cnt.fromLowerB
+
+theorem RCntSame.refl (s : St) : RCntSame s s := ⟨rfl, rfl, rfl, rfl⟩
+
+theorem RCntSame.trans {a b c : St} (h1 : RCntSame a b) (h2 : RCntSame b c) : RCntSame a c :=
+  ⟨h1.1.trans h2.1, h1.2.1.trans h2.2.1, h1.2.2.1.trans h2.2.2.1, h1.2.2.2.trans h2.2.2.2⟩
+
+/-- a flush never touches the receive-side counters, and never decreases a counter -/
+theorem tfs_cnt_recv (ans : List SAns) (s : St) (env : Env) :
+    RCntSame (tryFinishSendAux ans s env).1 s ∧
+    (tryFinishSendAux ans s env).1.cnt.fromAppM = s.cnt.fromAppM ∧
+    (tryFinishSendAux ans s env).1.cnt.fromAppB = s.cnt.fromAppB ∧
+    s.cnt.toLowerM ≤ (tryFinishSendAux ans s env).1.cnt.toLowerM ∧
+    s.cnt.toLowerB ≤ (tryFinishSendAux ans s env).1.cnt.toLowerB := by
+  induction ans generalizing s env with
+  | nil =>
+    simp only [tryFinishSendAux]
+    split
+    · exact ⟨RCntSame.refl _, rfl, rfl, Nat.le_refl _, Nat.le_refl _⟩
+    · split <;> exact ⟨RCntSame.refl _, rfl, rfl, Nat.le_refl _, Nat.le_refl _⟩
+  | cons a t ih =>
+    simp only [tryFinishSendAux]
+    split
+    · exact ⟨RCntSame.refl _, rfl, rfl, Nat.le_refl _, Nat.le_refl _⟩
+    · split
+      · exact ⟨RCntSame.refl _, rfl, rfl, Nat.le_refl _, Nat.le_refl _⟩
+      · cases a with
+        | err e => exact ⟨RCntSame.refl _, rfl, rfl, Nat.le_refl _, Nat.le_refl _⟩
+        | ok k =>
+          simp only
+          split
+          · exact ⟨⟨rfl, rfl, rfl, rfl⟩, rfl, rfl, Nat.le_succ _, Nat.le_add_right _ _⟩
+          · exact ih _ _
+
 /-! the receive path never touches the send side (unconditionally) -/
 
 def SendSide (s : St) (env : Env) (s' : St) (env' : Env) : Prop :=
-  s'.sbuf = s.sbuf ∧ s'.sent = s.sent ∧ env'.tx = env.tx ∧ env'.txErr = env.txErr
+  s'.sbuf = s.sbuf ∧ s'.sent = s.sent ∧ env'.tx = env.tx ∧ env'.txErr = env.txErr ∧
+  s'.cnt.fromAppM = s.cnt.fromAppM ∧ s'.cnt.fromAppB = s.cnt.fromAppB ∧
+  s'.cnt.toLowerM = s.cnt.toLowerM ∧ s'.cnt.toLowerB = s.cnt.toLowerB
 
-theorem SendSide.refl (s : St) (env : Env) : SendSide s env s env := ⟨rfl, rfl, rfl, rfl⟩
+theorem SendSide.refl (s : St) (env : Env) : SendSide s env s env := ⟨rfl, rfl, rfl, rfl, rfl, rfl, rfl, rfl⟩
 
 theorem SendSide.trans {s env s1 env1 s2 env2} (a : SendSide s env s1 env1) (b : SendSide s1 env1 s2 env2) :
     SendSide s env s2 env2 :=
-  ⟨b.1.trans a.1, b.2.1.trans a.2.1, b.2.2.1.trans a.2.2.1, b.2.2.2.trans a.2.2.2⟩
+  ⟨b.1.trans a.1, b.2.1.trans a.2.1, b.2.2.1.trans a.2.2.1, b.2.2.2.1.trans a.2.2.2.1,
+   b.2.2.2.2.1.trans a.2.2.2.2.1, b.2.2.2.2.2.1.trans a.2.2.2.2.2.1,
+   b.2.2.2.2.2.2.1.trans a.2.2.2.2.2.2.1, b.2.2.2.2.2.2.2.trans a.2.2.2.2.2.2.2⟩
 
 theorem lowerReceive_sendside (env : Env) (len : Nat) :
     (lowerReceive env len).1.tx = env.tx ∧ (lowerReceive env len).1.txErr = env.txErr := by
@@ -281,12 +319,12 @@ theorem bufferReceive_sendside (s : St) (env : Env) (len : Nat) :
   · generalize lowerReceive env len = lr at h
     obtain ⟨env', res⟩ := lr
     cases res with
-    | error x => cases x <;> exact ⟨rfl, rfl, h.1, h.2⟩
+    | error x => cases x <;> exact ⟨rfl, rfl, h.1, h.2, rfl, rfl, rfl, rfl⟩
     | ok got =>
       simp only
       split
-      · exact ⟨rfl, rfl, h.1, h.2⟩
-      · split <;> exact ⟨rfl, rfl, h.1, h.2⟩
+      · exact ⟨rfl, rfl, h.1, h.2, rfl, rfl, rfl, rfl⟩
+      · split <;> exact ⟨rfl, rfl, h.1, h.2, rfl, rfl, rfl, rfl⟩
 
 theorem bufferPayload_sendside (s : St) (env : Env) :
     SendSide s env (bufferPayload s env).1 (bufferPayload s env).2.1 := by
@@ -295,7 +333,9 @@ theorem bufferPayload_sendside (s : St) (env : Env) :
   · exact SendSide.refl _ _
   · have h := bufferReceive_sendside s env (rd32 s.rbuf - (s.rbuf.length - Generated.MBUF_HDR_LEN))
     generalize bufferReceive s env (rd32 s.rbuf - (s.rbuf.length - Generated.MBUF_HDR_LEN)) = q at h
-    split <;> exact h
+    split
+    · exact ⟨h.1, h.2.1, h.2.2.1, h.2.2.2.1, h.2.2.2.2.1, h.2.2.2.2.2.1, h.2.2.2.2.2.2.1, h.2.2.2.2.2.2.2⟩
+    · exact h
 
 theorem bufferMsg_sendside (s : St) (env : Env) :
     SendSide s env (bufferMsg s env).1 (bufferMsg s env).2.1 := by
